@@ -79,6 +79,10 @@ def drive (d : DSt) (toks : List String) : DSt × String :=
       | some evs => let t := d.t.evs evs; ({ d with t := t }, showTl t)
       | none => (d, "bad-op")
     | none => (d, "bad-op")
+  | ["load", v] =>
+    match parseRat v with
+    | some v => let t := d.t.load v; ({ d with t := t }, showTl t)
+    | none => (d, "bad-op")
   | ["reset"] =>
     let (a, v) := d.a.reset d.t
     ({ d with a := a }, showRat v)
